@@ -103,7 +103,15 @@ func peach(fm *Frame, opts peachOpt, f Callable, inputs Inputs) error {
 			return
 		}
 		if workerSema != nil {
-			workerSema.Acquire(ctx, 1)
+			if acquireErr := workerSema.Acquire(ctx, 1); acquireErr != nil {
+				// Interrupted while waiting for a free worker. No slot is held,
+				// so don't start (and later release) another worker.
+				errMu.Lock()
+				err = errutil.Multi(err, ErrInterrupted)
+				errMu.Unlock()
+				atomic.StoreInt32(&broken, 1)
+				return
+			}
 		}
 		wg.Add(1)
 		go func() {
